@@ -295,7 +295,7 @@ func checkC09(ctx *RunCtx) int {
 		Extra: extra,
 		Prop:  "C09", Level: "exploration", EvalCounter: "quiescent_checks", NonTrivSet: "nontrivial",
 		Rule:        "random tournament histories against a world of real tables that follow the regulator's instructions (registration batches 1..4*max and bursts of 300, pending -> running -> registration closed at random points, syncs with 0-3 eliminations on random tables, releases, breaks, unknown-table calls), all settings 2<=min<=max<=10 plus 9/6, and long tournaments down to the final table. After every completed step: every live player is in exactly one of {waiting queue (hook), one table}, nobody is handed out twice or after elimination, GetPlayerCount/GetTableCount/GetTable(id).PlayerCount equal the real numbers; unknown-table syncs (also the repeated last report of a broken table) and late registrations must be refused with the observable state unchanged. Histories include re-entries under the same id, registration batches that are windows of one roster array, tables that keep the list they were handed, releases delivered late (players counted as in transit) and a pause (status back to pending and forward). A concurrent world (registrars and table owners on different goroutines, ledger at quiescence) runs in-process and in a -race build. evaluations = quiescent-point checks; non-trivial = distinct histories",
-		Required:    []string{"class_players_waiting", "class_registration_after_deadline", "class_unknown_table", "class_table_broken", "top_ups", "releases", "long_tournaments", "class_final_table_reached"},
+		Required:    []string{"class_players_waiting", "class_registration_after_deadline", "class_unknown_table", "class_table_broken", "top_ups", "releases", "long_tournaments", "class_final_table_reached", "class_re_entry", "class_delayed_release", "class_paused", "class_late_report_of_broken_table", "concurrent_quiescent_checks", "race_build_concurrent_quiescent_checks"},
 		Assumptions: []string{"ReleasePlayers never validates its table id and is legitimately called with the id of a table the regulator has just deleted; 'unknown table is refused' is asserted for SyncState/GetTable only", "tables follow the protocol of the repo's own tests: eliminate, report, seat the returned players, release exactly the requested number"},
 	})
 }
@@ -309,7 +309,7 @@ func checkC19(ctx *RunCtx) int {
 		Extra: extra,
 		Prop:  "C19", Level: "exploration", EvalCounter: "tables_opened", NonTrivSet: "nontrivial",
 		Rule:     "the same tournament histories with the capacity monitor inside the callbacks: every list given to requestTableFn has at most max players, every table's real membership stays <= max after each assignPlayersFn / SyncState hand-out, no table is opened while pending or before min players have registered, every table opened by the initial allocation (the first ever) has >= min players; settings grid 2<=min<=max<=10, registrant counts around multiples of max, late batches above capacity, delayed releases, pauses, re-entries; the concurrent world (capacity at quiescence) in-process and in a -race build. evaluations = tables opened; non-trivial = distinct histories",
-		Required: []string{"class_initial_allocation_tables", "class_initial_allocation_with_remainder", "class_late_batch_above_capacity", "class_late_tables", "assignments", "top_ups"},
+		Required: []string{"class_initial_allocation_tables", "class_initial_allocation_with_remainder", "class_late_batch_above_capacity", "class_late_tables", "assignments", "top_ups", "concurrent_quiescent_checks", "race_build_concurrent_quiescent_checks"},
 	})
 }
 
